@@ -1,4 +1,5 @@
 import Bxh.Proofs.ExecLemmas
+import Bxh.Proofs.GoRemove
 /-!
 # C06 — timeout rollback fires exactly at the timeout height and never otherwise
 Theorems about the executor's timeout bookkeeping (`setTimeoutList`, `getTimeoutList`,
@@ -93,6 +94,31 @@ theorem getTimeoutList_of (l : Led) (h : Nat) (x : TId) (xs : List TId)
   unfold getTimeoutList
   simp only [hs]
   simp
+
+/-- **removal from a timeout list is exact** (`removeFromTimeoutList`, Go's in-place removal while ranging over the
+slice): when the list holds the id at most once, the loop does not panic, the id is gone and every other entry stays,
+in order.  (With the id twice in a row the real loop keeps one copy, and with copies at the end it panics — the model
+`goRemoveLoop` replays the backing array and reproduces both; the hypothesis is what rules them out.) -/
+theorem C06_remove_exact (l : Led) (h : Nat) (t : TxId) (lst : List (Option TId))
+    (hl : l.getS (.timeout h) = some (.tlist lst)) (hne : lst ≠ [none]) (hc : lst.count (some (.single t)) ≤ 1) :
+    ∃ l', tmRemoveTimeout l h (.single t) = .ok l' ∧
+      l'.getS (.timeout h) = some (.tlist (normList (lst.erase (some (.single t))))) := by
+  unfold tmRemoveTimeout
+  simp only [hl]
+  have : (lst == [none]) = false := by simpa using hne
+  rw [this]
+  simp only [Bool.false_eq_true, if_false, goRemove_count_le_one lst (.single t) hc]
+  exact ⟨_, rfl, by simp [Led.getS, Led.setS]⟩
+
+/-- and every other id of the list is still listed afterwards -/
+theorem C06_remove_keeps_others (lst : List (Option TId)) (x y : TId) (hc : lst.count (some x) ≤ 1) (hxy : x ≠ y) :
+    ∃ r, goRemove lst x = some r ∧ (some y ∈ r ↔ some y ∈ lst) ∧ some x ∉ r := by
+  refine ⟨lst.erase (some x), goRemove_count_le_one lst x hc, ?_, ?_⟩
+  · exact List.mem_erase_of_ne (by intro h; exact hxy (Option.some.inj h).symm)
+  · intro hm
+    have h1 := List.count_erase_self (a := some x) (l := lst)
+    have h2 := List.count_pos_iff.mpr hm
+    omega
 
 end Bxh.Props.C06
 
